@@ -21,3 +21,529 @@ def search(ctx: common.Ctx):
 
 def replay(ctx, path):
     return tree_check.replay(ctx, path, 'C15')
+
+
+# =============================================================================================
+# custom.py: _disambiguate_values / _unsimplify_value / _simplify_value / _update_raw
+#   model CustomValues.v, theorems C15_custom_*, case checkers CustomValuesRun.v
+# =============================================================================================
+import datetime as _dt
+import io as _io
+import json as _json
+import random as _random
+import re as _re
+from decimal import Decimal as _D
+from typing import Optional
+
+from harness.common import coq_bool, coq_list, coq_opt, coq_str, coq_z
+
+CUSTOM_PREAMBLE = 'From AB Require Import Prelude NumExpr NumExprRun CustomValues CustomValuesRun.'
+CUSTOM_GRAMMAR = {
+    'custom': '_leading_comment DATE CUSTOM ESCAPED_STRING repeated{_custom_value} _comment_eol _meta_items _trailing_comment',
+    '_custom_value': 'ESCAPED_STRING | DATE | BOOL | amount | number_expr | ACCOUNT',
+    'amount': 'number_expr CURRENCY',
+}
+SIG_CUSTOM_MERGE = 'C15:custom-values-reparse'
+_CU = {}
+
+
+def _cu():
+    if not _CU:
+        from autobean_refactor import models, parser, printer
+        import importlib
+        custom_mod = importlib.import_module('autobean_refactor.models.custom')
+        from harness import c13
+        _CU.update(M=models, P=parser.Parser(), printer=printer, custom=custom_mod, c13=c13)
+    return _CU
+
+
+def _cu_print(m) -> str:
+    return _cu()['printer'].print_model(m, _io.StringIO()).getvalue()
+
+
+def custom_tie(ctx) -> None:
+    path = common.REPO / 'autobean_refactor' / 'beancount.lark'
+    try:
+        src = path.read_text()
+    except OSError as e:
+        ctx.fail('tie', 'grammar-unreadable', f'cannot read {path}: {e}')
+        return
+    rules = {}
+    for line in src.splitlines():
+        m = _re.match(r'^(\??[A-Za-z_][A-Za-z_0-9]*)\s*:\s*(.*?)\s*$', line)
+        if m and not line.startswith('//'):
+            rules.setdefault(m.group(1), _re.sub(r'\s+', ' ', m.group(2)))
+    for name, want in CUSTOM_GRAMMAR.items():
+        if rules.get(name) != want:
+            ctx.fail('tie', 'grammar-rule-changed',
+                     f'beancount.lark rule {name!r} is {rules.get(name)!r}; CustomValues.parse_values was written for {want!r}',
+                     {'rule': name, 'found': rules.get(name), 'expected': want})
+    ctx.count('pinned_grammar_rules', len(CUSTOM_GRAMMAR))
+
+
+# ----- observing raw values ---------------------------------------------------------------------
+class _Odd(Exception):
+    pass
+
+
+def cu_obs(v):
+    I = _cu()
+    M, c13 = I['M'], I['c13']
+    try:
+        if isinstance(v, M.EscapedString):
+            return ('str', v.raw_text)
+        if isinstance(v, M.Date):
+            return ('date', v.raw_text)
+        if isinstance(v, M.Bool):
+            return ('bool', v.raw_text)
+        if isinstance(v, M.Account):
+            return ('account', v.raw_text)
+        if isinstance(v, M.NumberExpr):
+            return ('num', c13.observe(v)[1])
+        if isinstance(v, M.Amount):
+            return ('amount', c13.observe(v.raw_number)[1], v.raw_currency.raw_text)
+    except c13.Malformed as e:
+        raise _Odd(f'malformed number expression: {e}')
+    raise _Odd(f'unexpected raw value {type(v).__name__}')
+
+
+def cu_strip_tree(t):
+    k = t[0]
+    if k == 'num':
+        return t
+    if k == 'paren':
+        return ('paren', '', cu_strip_tree(t[2]), '')
+    if k == 'un':
+        return ('un', t[1], '', cu_strip_tree(t[3]))
+    if k in ('matom', 'amul'):
+        return (k, cu_strip_tree(t[1]))
+    return (k, cu_strip_tree(t[1]), '', t[3], '', cu_strip_tree(t[5]))
+
+
+def cu_strip(o):
+    if o[0] == 'num':
+        return ('num', cu_strip_tree(o[1]))
+    if o[0] == 'amount':
+        return ('amount', cu_strip_tree(o[1]), o[2])
+    return o
+
+
+def cu_coq_value(o) -> str:
+    c13 = _cu()['c13']
+    k = o[0]
+    if k == 'num':
+        return f'(VNum {c13.coq_tree(o[1])})'
+    if k == 'amount':
+        return f'(VAmount {c13.coq_tree(o[1])} {coq_str(o[2])})'
+    return '(%s %s)' % ({'str': 'VStr', 'date': 'VDate', 'bool': 'VBool', 'account': 'VAccount'}[k], coq_str(o[1]))
+
+
+def cu_free(v) -> bool:
+    ts = v.token_store
+    return (not ts) or (v.first_token is ts.get_first() and v.last_token is ts.get_last())
+
+
+_TOK = {'EscapedString': 'CStr', 'Date': 'CDate', 'Bool': 'CBool', 'Account': 'CAcct', 'Currency': 'CCur'}
+
+
+def cu_coq_tok(kind: str, text: str) -> str:
+    if kind in _TOK:
+        return f'{_TOK[kind]} {coq_str(text)}'
+    if kind == 'Number':
+        return f'CLex (LNum {coq_str(text)})'
+    if kind in ('UnaryOp', 'AddOp') and text in '+-' and len(text) == 1:
+        return f'CLex (LSign {coq_bool(text == "-")})'
+    if kind == 'MulOp' and text in '*/' and len(text) == 1:
+        return f'CLex (LStar {coq_bool(text == "/")})'
+    if kind == 'LeftParen' and text == '(':
+        return 'CLex LLp'
+    if kind == 'RightParen' and text == ')':
+        return 'CLex LRp'
+    raise _Odd(f'unexpected token {kind} {text!r} inside a custom value')
+
+
+def cu_sig_tokens(v) -> list[str]:
+    out, t, n = [], v.first_token, 0
+    while True:
+        if type(t).__name__ != 'Whitespace':
+            out.append(cu_coq_tok(type(t).__name__, t.raw_text))
+        if t is v.last_token:
+            return out
+        t = v.token_store.get_next(t)
+        n += 1
+        if t is None or n > 10000:
+            raise _Odd('last_token is not reachable from first_token')
+
+
+def cu_coq_dec(d: _D) -> str:
+    return f'(SExt {coq_bool(d < 0)} {coq_str(format(d.copy_abs(), "f"))})'
+
+
+def cu_coq_py(x) -> str:
+    """a Python-level value as CustomValues.pyval (raw models via cu_obs)"""
+    if isinstance(x, str):
+        return f'(PStr {coq_str(x)})'
+    if isinstance(x, bool):
+        return f'(PBool {coq_bool(x)})'
+    if isinstance(x, _dt.datetime):
+        return f'(PDateTime ({x.year}, {x.month}, {x.day}) {x.hour * 60 + x.minute})'
+    if isinstance(x, _dt.date):
+        return f'(PDate ({x.year}, {x.month}, {x.day}))'
+    if isinstance(x, _D):
+        return f'(PDec {cu_coq_dec(x)})'
+    return f'(PRaw {cu_coq_value(cu_obs(x))})'
+
+
+# ----- generating / building arguments ----------------------------------------------------------
+CU_STRS = ['', 's', 'a b', 'q"uote', 'back\\slash', 'tab\there', 'two\nlines', 'é✓']
+CU_DATES = [(2000, 1, 1), (1999, 12, 31), (2024, 2, 29), (1000, 10, 9), (9999, 1, 2)]
+CU_DECS = ['0', '1', '-2', '3.50', '-0.75', '100', '-100', '1E+3', '-1E+3', '-0', '12.00', '-7.25', '1E-7', '-2.5E-7']
+CU_CURS = ['USD', 'EUR', 'XY', "AB.C-D'E_F"]
+CU_ACCTS = ['Assets:A', 'Expenses:Food:Out', 'Liabilities:C-1']
+CU_ATTACHED = ['2000-01-01 custom "t" {}', '2000-01-01 custom "t" "a" {} TRUE']
+
+
+def cu_gen_expr(rng) -> str:
+    c13 = _cu()['c13']
+    s = c13.gen_expr(rng, rng.choice([0, 0, 1, 1, 2]))
+    if rng.random() < 0.45:
+        s = rng.choice('-+-') + rng.choice(['', '', ' ']) + s
+    return s
+
+
+def cu_gen_arg(rng, mode: str, i: int) -> dict:
+    r = rng.random()
+    if r < 0.30:
+        return {'k': 'num', 'text': cu_gen_expr(rng)}
+    if r < 0.45:
+        return {'k': 'dec', 'v': rng.choice(CU_DECS)} if mode == 'value' else {'k': 'numv', 'v': rng.choice(CU_DECS)}
+    if r < 0.55:
+        return {'k': 'amount', 'text': cu_gen_expr(rng), 'cur': rng.choice(CU_CURS)}
+    if r < 0.63:
+        return {'k': 'amountv', 'v': rng.choice(CU_DECS), 'cur': rng.choice(CU_CURS)}
+    if r < 0.70:
+        return {'k': 'str' if mode == 'value' else 'rstr', 'v': rng.choice(CU_STRS)}
+    if r < 0.76:
+        return {'k': 'date' if mode == 'value' else 'rdate', 'v': list(rng.choice(CU_DATES))}
+    if r < 0.79 and mode == 'value':
+        return {'k': 'datetime', 'v': list(rng.choice(CU_DATES)), 't': [rng.randrange(24), rng.randrange(60)]}
+    if r < 0.85:
+        return {'k': 'bool' if mode == 'value' else 'rbool', 'v': rng.random() < 0.5}
+    if r < 0.91:
+        return {'k': 'account', 'v': rng.choice(CU_ACCTS)}
+    if r < 0.95:
+        return {'k': 'attached', 'doc': rng.randrange(len(CU_ATTACHED)),
+                'text': rng.choice([cu_gen_expr(rng), cu_gen_expr(rng) + ' USD', '"z"', 'Assets:Z']),
+                'inner': rng.random() < 0.3}
+    return {'k': 'dup', 'of': rng.randrange(i)} if i else {'k': 'num', 'text': cu_gen_expr(rng)}
+
+
+def cu_gen_call(rng) -> dict:
+    mode = rng.choice(['value', 'value', 'children'])
+    n = rng.choice([0, 1, 2, 2, 3, 3, 4, 5, 6])
+    args = [cu_gen_arg(rng, mode, i) for i in range(n)]
+    if rng.random() < 0.75:   # most calls are accepted
+        args = [a if a['k'] not in ('attached', 'dup') else {'k': 'num', 'text': cu_gen_expr(rng)} for a in args]
+    return {'kind': 'custom-call', 'mode': mode, 'args': args}
+
+
+CU_FIXED_CALLS = [
+    {'kind': 'custom-call', 'mode': 'value', 'args': [{'k': 'dec', 'v': '1'}, {'k': 'dec', 'v': '-2'}]},
+    {'kind': 'custom-call', 'mode': 'value', 'args': [{'k': 'dec', 'v': '1'}, {'k': 'amountv', 'v': '-2', 'cur': 'USD'},
+                                                     {'k': 'dec', 'v': '-3'}, {'k': 'str', 'v': 's'}, {'k': 'dec', 'v': '-4'}]},
+    {'kind': 'custom-call', 'mode': 'children', 'args': [{'k': 'num', 'text': '1 + 2'}, {'k': 'num', 'text': '- 3 * 4'},
+                                                        {'k': 'num', 'text': '+(5)'}, {'k': 'amount', 'text': '-6', 'cur': 'EUR'}]},
+    {'kind': 'custom-call', 'mode': 'children', 'args': [{'k': 'num', 'text': '1'}, {'k': 'num', 'text': '(-2)'},
+                                                        {'k': 'num', 'text': '2 * -3'}, {'k': 'num', 'text': '--4'}]},
+    {'kind': 'custom-call', 'mode': 'children', 'args': [{'k': 'num', 'text': '1'}, {'k': 'num', 'text': '-2'},
+                                                        {'k': 'attached', 'doc': 0, 'text': '-3', 'inner': False}]},
+    {'kind': 'custom-call', 'mode': 'value', 'args': [{'k': 'dec', 'v': '1'}, {'k': 'num', 'text': '-2'}, {'k': 'dup', 'of': 1}]},
+    {'kind': 'custom-call', 'mode': 'value', 'args': [{'k': 'numv', 'v': '5'}, {'k': 'datetime', 'v': [2001, 2, 3], 't': [4, 5]},
+                                                     {'k': 'dec', 'v': '-1'}, {'k': 'bool', 'v': True}, {'k': 'account', 'v': 'Assets:A'}]},
+]
+
+
+def cu_build_arg(spec: dict, built: list):
+    I = _cu()
+    M, P = I['M'], I['P']
+    k = spec['k']
+    if k == 'str':
+        return spec['v']
+    if k == 'date':
+        return _dt.date(*spec['v'])
+    if k == 'datetime':
+        return _dt.datetime(*spec['v'], *spec['t'])
+    if k == 'bool':
+        return bool(spec['v'])
+    if k == 'dec':
+        return _D(spec['v'])
+    if k == 'rstr':
+        return M.EscapedString.from_value(spec['v'])
+    if k == 'rdate':
+        return M.Date.from_value(_dt.date(*spec['v']))
+    if k == 'rbool':
+        return M.Bool.from_value(bool(spec['v']))
+    if k == 'account':
+        return M.Account.from_value(spec['v'])
+    if k == 'num':
+        return P.parse(spec['text'], M.NumberExpr)
+    if k == 'numv':
+        return M.NumberExpr.from_value(_D(spec['v']))
+    if k == 'amount':
+        return P.parse(spec['text'] + ' ' + spec['cur'], M.Amount)
+    if k == 'amountv':
+        return M.Amount.from_value(_D(spec['v']), spec['cur'])
+    if k == 'attached':
+        c = P.parse(CU_ATTACHED[spec['doc']].format(spec['text']), M.Custom)
+        v = c.raw_values[spec['doc']]
+        if spec.get('inner') and isinstance(v, M.Amount):
+            return v.raw_number
+        return v
+    if k == 'dup':
+        x = built[spec['of']]
+        return x
+    raise ValueError(k)
+
+
+def _norm(x):
+    """a Date token built from a datetime.datetime hands that very object back until the text is re-read; the model
+    (and the re-parse) know the date only"""
+    return x.date() if isinstance(x, _dt.datetime) else x
+
+
+def _is_raw(x) -> bool:
+    return not isinstance(x, (str, _dt.date, bool, _D))
+
+
+class CustomCall:
+    """one Custom.from_value / from_children call on the real implementation, and everything observed"""
+
+    def __init__(self, spec: dict):
+        I = _cu()
+        M, P, c13 = I['M'], I['P'], I['c13']
+        self.spec, self.coq, self.monitor, self.odd = spec, None, [], None
+        built: list = []
+        for a in spec['args']:
+            built.append(cu_build_arg(a, built))
+        ids: dict[int, int] = {}
+        raws = [x for x in built if _is_raw(x)]
+        try:
+            before, before_raw = [], []
+            for x in built:
+                if _is_raw(x):
+                    n = ids.setdefault(id(x), len(ids) + 1)
+                    before_raw.append(cu_coq_value(cu_obs(x)))
+                    before.append(f'inr (CV {n} {coq_bool(cu_free(x))} {before_raw[-1]})')
+                else:
+                    before.append(f'inl {cu_coq_py(x)}')
+            exc, result = 0, None
+            try:
+                if spec['mode'] == 'value':
+                    result = M.Custom.from_value(_dt.date(2000, 1, 1), 't', built)
+                else:
+                    result = M.Custom.from_children(M.Date.from_value(_dt.date(2000, 1, 1)),
+                                                    M.EscapedString.from_value('t'), built)
+            except ValueError:
+                exc = 1
+            except Exception as e:      # noqa: BLE001 - any other exception class is a disagreement with the model
+                exc = 9
+                self.odd = f'raised {type(e).__name__}'
+            self.exc = exc
+            after = [cu_coq_value(cu_obs(x)) for x in raws]
+            out, toks, simple, reparsed = [], [], [], None
+            self.text = None
+            if result is not None:
+                objs = list(result.raw_values)
+                obs = [cu_obs(v) for v in objs]
+                out = [cu_coq_value(o) for o in obs]
+                toks = [coq_list(cu_sig_tokens(v)) for v in objs]
+                vals = []
+                for rawv in objs:
+                    if isinstance(rawv, M.NumberExpr):      # .value may be undefined (division by zero): keep the term
+                        vals.append(c13.safe(lambda: I['custom']._simplify_value(rawv)))
+                        simple.append(f'(PDec {c13.coq_term(c13.term_of_text(_cu_print(rawv)))})')
+                    else:
+                        vals.append(_norm(I['custom']._simplify_value(rawv)))
+                        simple.append(cu_coq_py(vals[-1]))
+                self.text = _cu_print(result)
+                try:
+                    again = P.parse(self.text, M.Custom)
+                    robs = [cu_obs(v) for v in again.raw_values]
+                    reparsed = coq_list(cu_coq_value(o) for o in robs)
+                    # the property's own statement: same values, in the same order (spacing aside)
+                    if [cu_strip(o) for o in robs] != [cu_strip(o) for o in obs]:
+                        self.monitor.append(f'{self.text!r} re-parses to {len(robs)} value(s) '
+                                            f'{[_cu_print(v) for v in again.raw_values]}, constructed {len(obs)}: '
+                                            f'{[_cu_print(v) for v in objs]}')
+                    else:
+                        revals = [c13.safe(lambda: I['custom']._simplify_value(v)) for v in again.raw_values]
+                        if [x for x in revals if not _is_raw(x)] != [x for x in vals if not _is_raw(x)]:
+                            self.monitor.append(f'{self.text!r}: values read {revals!r} after re-parse, {vals!r} before')
+                except _Odd:
+                    raise
+                except Exception as e:      # noqa: BLE001
+                    self.monitor.append(f'{self.text!r} (printed Custom) is refused by the parser: {type(e).__name__}')
+            self.n_wrapped = sum(1 for a, b in zip(after, before_raw) if a != b) if result is not None else 0
+            self.coq = (f'mkdcase {coq_list(before)} {exc} {coq_list(after)} {coq_list(out)} {coq_list(toks)} '
+                        f'{coq_list(simple)} {coq_opt(reparsed)}')
+        except _Odd as e:
+            self.odd = str(e)
+
+
+def cu_gen_stream(rng) -> list[tuple[str, str]]:
+    """parts (kind, text) of an UNDISAMBIGUATED value list, some of them not values at all"""
+    parts = []
+    for _ in range(rng.choice([0, 1, 2, 2, 3, 3, 4, 5])):
+        r = rng.random()
+        if r < 0.55:
+            parts.append(('lex', cu_gen_expr(rng)))
+        elif r < 0.68:
+            parts.append(('lex', cu_gen_expr(rng)))
+            parts.append(('Currency', rng.choice(CU_CURS)))
+        elif r < 0.74:
+            parts.append(('EscapedString', '"' + rng.choice(['', 's', 'a b']) + '"'))
+        elif r < 0.80:
+            parts.append(('Date', rng.choice(['2001-02-03', '1999/12/31'])))
+        elif r < 0.86:
+            parts.append(('Bool', rng.choice(['TRUE', 'FALSE'])))
+        elif r < 0.92:
+            parts.append(('Account', rng.choice(CU_ACCTS)))
+        elif r < 0.96:
+            parts.append(('lex', rng.choice(['*', ')', '(', '+', '- ', '1 +', '( 2', '/ 3'])))
+        else:
+            parts.append(('Currency', rng.choice(CU_CURS)))
+    return parts
+
+
+CU_FIXED_STREAMS = [
+    [('lex', '1'), ('lex', '-2')], [('lex', '1'), ('lex', '(2)')], [('lex', '1'), ('lex', '(2)'), ('Currency', 'USD')],
+    [('lex', '1'), ('lex', '2 * 3'), ('lex', '-4'), ('Currency', 'USD'), ('Bool', 'TRUE')],
+    [('lex', '1'), ('lex', '-'), ('EscapedString', '"s"')], [('lex', '1 * 2'), ('lex', '+3'), ('lex', '4')],
+    [('lex', '1'), ('Currency', 'USD'), ('lex', '-2'), ('lex', '3')], [('lex', '1 +2 * -3'), ('lex', '(4) - 5')],
+    [('lex', '1'), ('Date', '2001-01-01'), ('lex', '-3'), ('Currency', 'USD')], [('lex', '(1'), ('lex', '2)')],
+    [('lex', '1'), ('Currency', 'USD'), ('Currency', 'USD')], [('Currency', 'USD')], [],
+]
+
+
+def cu_stream_case(parts) -> tuple[str, Optional[int], str]:
+    I = _cu()
+    M, P, c13 = I['M'], I['P'], I['c13']
+    toks = []
+    for kind, text in parts:
+        if kind == 'lex':
+            for k, s in c13.tokenize(text) or []:
+                toks.append(cu_coq_tok({'num': 'Number'}.get(k) or {'+': 'AddOp', '-': 'AddOp', '*': 'MulOp', '/': 'MulOp',
+                                                                   '(': 'LeftParen', ')': 'RightParen'}[s], s))
+        else:
+            toks.append(cu_coq_tok(kind, text))
+    text = '2000-01-01 custom "t"' + ''.join(' ' + t for _, t in parts)
+    try:
+        c = P.parse(text, M.Custom)
+        vals = [cu_obs(v) for v in c.raw_values]
+        got, n = coq_list(cu_coq_value(o) for o in vals), len(vals)
+    except _Odd:
+        raise
+    except Exception:      # noqa: BLE001 - the parser refuses the text
+        got, n = None, None
+    return f'({coq_list(toks)}, {coq_opt(got)})', n, text
+
+
+def cu_update_cases() -> list[tuple[str, dict]]:
+    I = _cu()
+    M, P = I['M'], I['P']
+    raws = [lambda: M.EscapedString.from_value('a'), lambda: M.Date.from_value(_dt.date(2000, 1, 1)),
+            lambda: M.Bool.from_value(False), lambda: P.parse('1 + 2', M.NumberExpr), lambda: M.NumberExpr.from_value(_D('-3')),
+            lambda: M.Amount.from_value(_D(1), 'USD'), lambda: M.Account.from_value('Assets:A')]
+    vals = [lambda: 'x"y', lambda: '', lambda: _dt.date(2024, 2, 29), lambda: _dt.datetime(2001, 2, 3, 4, 5), lambda: True,
+            lambda: False, lambda: _D('-3.5'), lambda: _D('4'), lambda: _D('1E+3'), lambda: M.Account.from_value('Assets:B'),
+            lambda: M.NumberExpr.from_value(_D(7))]
+    out = []
+    for i, mk in enumerate(raws):
+        for j, mv in enumerate(vals):
+            r, v = mk(), mv()
+            before = cu_coq_value(cu_obs(r))
+            ok = I['custom']._update_raw(r, v)
+            out.append((f'({before}, {cu_coq_py(v)}, {coq_bool(bool(ok))}, {cu_coq_value(cu_obs(r))})',
+                        {'kind': 'custom-update', 'raw': i, 'value': j}))
+    return out
+
+
+def run_custom(ctx: common.Ctx, only: Optional[dict] = None) -> None:
+    """correspondence + monitor for custom.py's hand-written value handling (see CustomValues.v)"""
+    ctx.assumptions.append('custom.py: Custom.values edits through the repeated wrapper are not disambiguated by the source '
+                           '(its TODO; known finding C06:custom-values-adjacent-numbers) and are outside C15_custom_*')
+    if not ctx.require_coq([], extra_targets=['CustomValuesRun']):
+        return
+    custom_tie(ctx)
+    rng = _random.Random(ctx.rng.getrandbits(48))
+    specs = [only] if only else CU_FIXED_CALLS + [cu_gen_call(rng) for _ in range(ctx.scale(220, 1500))]
+    runs = [CustomCall(s) for s in specs]
+    for r in runs:
+        if r.odd:
+            ctx.fail('corr', 'custom-unexpected-shape', f'Custom.from_{r.spec["mode"]}: {r.odd}', r.spec)
+        for what in r.monitor:
+            ctx.monitor_failure(SIG_CUSTOM_MERGE, what, r.spec)
+        kinds = [a['k'] for a in r.spec['args']]
+        ctx.case({'custom': r.spec}, nontrivial=len(kinds) >= 2)
+        ctx.dist('custom:' + ('refused' if getattr(r, 'exc', 0) else 'wrapped' if getattr(r, 'n_wrapped', 0) else 'plain'))
+    good = [r for r in runs if r.coq]
+    bad = ctx.run_coq_cases('custom', CUSTOM_PREAMBLE, 'dcase', 'check_dcase', [r.coq for r in good], chunk=40)
+    ctx.count('traces_validated_against_impl', len(good) - len(bad))
+    for i in bad[:3]:
+        r = good[i]
+        ctx.fail('corr', 'custom-disambiguate-correspondence',
+                 f'Custom.from_{r.spec["mode"]} and CustomValues.disambiguate disagree (exception code {r.exc}, printed {r.text!r})',
+                 r.spec)
+    if only:
+        return
+    # the grammar side: undisambiguated juxtapositions, model's parse_values against the real parser
+    streams = CU_FIXED_STREAMS + [cu_gen_stream(rng) for _ in range(ctx.scale(200, 1200))]
+    pcases = []
+    for parts in streams:
+        try:
+            coq, n, text = cu_stream_case(parts)
+        except _Odd as e:
+            ctx.fail('corr', 'custom-unexpected-shape', f'parsed custom values: {e}', {'kind': 'custom-stream', 'parts': parts})
+            continue
+        pcases.append((coq, parts, text))
+        ctx.dist('custom-stream:' + ('refused' if n is None else 'merged' if n < sum(1 for k, _ in parts if k != 'Currency') else 'split'))
+    bad = ctx.run_coq_cases('custom_parse', CUSTOM_PREAMBLE, 'list ctok * option (list value)', 'check_pcase',
+                            [c for c, _, _ in pcases], chunk=80)
+    ctx.count('traces_validated_against_impl', len(pcases) - len(bad))
+    for i in bad[:3]:
+        ctx.fail('corr', 'custom-parse-correspondence',
+                 f'the parser and CustomValues.parse_values split {pcases[i][2]!r} differently',
+                 {'kind': 'custom-stream', 'parts': pcases[i][1]})
+    # _update_raw over (raw kind x value type)
+    ucases = cu_update_cases()
+    bad = ctx.run_coq_cases('custom_update', CUSTOM_PREAMBLE, 'value * pyval sym * bool * value', 'check_ucase',
+                            [c for c, _ in ucases], chunk=100)
+    ctx.count('traces_validated_against_impl', len(ucases) - len(bad))
+    for i in bad[:3]:
+        ctx.fail('corr', 'custom-update-raw-correspondence', 'custom._update_raw and CustomValues.update_raw disagree', ucases[i][1])
+
+
+_tree_run, _tree_search, _tree_replay = run, search, replay
+
+
+def run(ctx: common.Ctx):      # noqa: F811 - extends the check above
+    _tree_run(ctx)
+    run_custom(ctx)
+
+
+def search(ctx: common.Ctx):      # noqa: F811
+    _tree_search(ctx)
+    run_custom(ctx)
+
+
+def replay(ctx, path):      # noqa: F811
+    data = _json.loads(open(path).read())
+    f = data.get('failure') or (data.get('what_no_longer_checks') or [{}])[0]
+    w = f.get('witness') or {}
+    if isinstance(w, dict) and w.get('kind') == 'custom-call':
+        r = CustomCall(w)
+        print(_json.dumps({'spec': w, 'exception_code': getattr(r, 'exc', None), 'printed': getattr(r, 'text', None),
+                           'monitor': r.monitor, 'odd': r.odd}, indent=1))
+        run_custom(ctx, only=w)
+        return 1 if (r.monitor or r.odd or ctx.failures) else 0
+    return _tree_replay(ctx, path)
